@@ -45,6 +45,47 @@ pub enum Media {
     Video,
     AudioVideo,
     DcAudio,
+    /// three RTP sections
+    AudioVideoAudio,
+    /// data channel + two RTP sections (WebRtc); three RTP sections in the direct modes
+    DcAudioVideo,
+}
+
+/// What an earlier section changes in a staged (renegotiation) description.
+#[derive(Clone, Copy, Debug, PartialEq, Eq, Serialize, Deserialize)]
+pub enum Change {
+    CodecSubset,
+    RemapPt,
+    AddCodec,
+    Direction,
+    Ssrc,
+    ExtmapIds,
+}
+
+/// The element a later section (or the same section, after its changed lines) carries and
+/// that the stack may refuse. Whether it is refused is not prescribed.
+#[derive(Clone, Copy, Debug, PartialEq, Eq, Serialize, Deserialize)]
+pub enum Poison {
+    Extmap0,
+    Extmap15,
+    Extmap256,
+    ExtmapDuplicate,
+    ExtmapNonNumeric,
+    BadRtpmap,
+    DuplicateRtpmap,
+    BadFmtp,
+    UnknownMid,
+    DuplicateMid,
+    EmptyMid,
+    Fingerprint,
+    BadIce,
+    BadProto,
+    PortZero,
+    SwapSections,
+    DropSection,
+    ExtraSection,
+    SetupHoldconn,
+    NoFormats,
 }
 
 #[derive(Clone, Copy, Debug, PartialEq, Eq, Serialize, Deserialize)]
@@ -78,6 +119,11 @@ pub enum Edit {
     ConflictingFingerprints,
     UnsupportedHash,
     BadHexFingerprint,
+    /// renegotiation shape: the first RTP section changes media parameters (`change`), and the
+    /// last RTP section (or, with `same_section`, the changed section itself, after its changed
+    /// lines) carries `poison`; `via_text` sends the result through print + parse like a real
+    /// signaling path (kept as built when the parser refuses it)
+    Staged { change: Change, poison: Poison, same_section: bool, via_text: bool },
 }
 
 #[derive(Clone, Copy, Debug, PartialEq, Eq, Serialize, Deserialize)]
@@ -104,6 +150,9 @@ pub struct Case {
     pub media_a: Media,
     pub media_b: Media,
     pub start: Start,
+    /// audio/video transceivers are created with add_track (a sender exists) on both sides
+    #[serde(default)]
+    pub tracks: bool,
     pub ops: Vec<Op>,
 }
 
@@ -210,10 +259,23 @@ fn err_variant(e: &RtcError) -> &'static str {
 #[derive(Clone, Debug, PartialEq)]
 struct TSnap {
     id: u64,
+    kind: String,
     mid: Option<String>,
     direction: TransceiverDirection,
     payload_map: BTreeMap<u8, (String, u32, u8)>,
     extmap: BTreeMap<u8, String>,
+    /// sender_ssrc / sender_rtx_ssrc / sender_stream_id / sender_track_id of the transceiver
+    sender_identity: (Option<u32>, Option<u32>, Option<String>, Option<String>),
+    /// RtpSender: (ssrc, track id, stream id, cname)
+    sender: Option<(u32, String, String, String)>,
+    /// RtpSender::params(): (payload type, name, clock, channels)
+    sender_params: Option<(u8, String, u32, u8)>,
+    sender_sdes_mid: Option<(u8, String)>,
+    has_receiver: bool,
+    receiver_ssrc: Option<u32>,
+    receiver_rtx_ssrc: Option<u32>,
+    receiver_rids: Vec<String>,
+    has_udtl: bool,
 }
 
 #[derive(Clone, Debug, PartialEq)]
@@ -243,16 +305,55 @@ fn snapshot(pc: &PeerConnection) -> Snap {
         trans: pc
             .get_transceivers()
             .iter()
-            .map(|t| TSnap {
-                id: t.id(),
-                mid: t.mid(),
-                direction: t.direction(),
-                payload_map: t
-                    .get_payload_map()
-                    .into_iter()
-                    .map(|(k, v)| (k, (v.name, v.clock_rate, v.channels)))
-                    .collect(),
-                extmap: t.get_extmap().into_iter().collect(),
+            .map(|t| {
+                let sender = t.sender();
+                let receiver = t.receiver();
+                TSnap {
+                    id: t.id(),
+                    kind: format!("{:?}", t.kind()),
+                    mid: t.mid(),
+                    direction: t.direction(),
+                    payload_map: t
+                        .get_payload_map()
+                        .into_iter()
+                        .map(|(k, v)| (k, (v.name, v.clock_rate, v.channels)))
+                        .collect(),
+                    extmap: t.get_extmap().into_iter().collect(),
+                    sender_identity: (
+                        t.sender_ssrc(),
+                        t.sender_rtx_ssrc(),
+                        t.sender_stream_id(),
+                        t.sender_track_id(),
+                    ),
+                    sender: sender.as_ref().map(|s| {
+                        (
+                            s.ssrc(),
+                            s.track_id().to_string(),
+                            s.stream_id().to_string(),
+                            s.cname().to_string(),
+                        )
+                    }),
+                    sender_params: sender.as_ref().map(|s| {
+                        let p = s.params();
+                        (p.payload_type, p.name, p.clock_rate, p.channels)
+                    }),
+                    sender_sdes_mid: sender
+                        .as_ref()
+                        .and_then(|s| s.sdes_mid())
+                        .map(|(id, m)| (id, m.to_string())),
+                    has_receiver: receiver.is_some(),
+                    receiver_ssrc: receiver.as_ref().map(|r| r.ssrc()),
+                    receiver_rtx_ssrc: receiver.as_ref().and_then(|r| r.rtx_ssrc()),
+                    receiver_rids: receiver
+                        .as_ref()
+                        .map(|r| {
+                            let mut v = r.get_simulcast_rids();
+                            v.sort();
+                            v
+                        })
+                        .unwrap_or_default(),
+                    has_udtl: t.udtl_transport().is_some(),
+                }
             })
             .collect(),
     }
@@ -299,45 +400,42 @@ fn snap_diff(before: &Snap, after: &Snap) -> Vec<(&'static str, String)> {
             format!("{} -> {}", before.trans.len(), after.trans.len()),
         ));
     }
-    let (mut mid, mut dir, mut pm, mut em) = (None, None, None, None);
+    let ids = |v: &Vec<TSnap>| v.iter().map(|t| t.id).collect::<Vec<_>>();
+    if before.trans.len() == after.trans.len() && ids(&before.trans) != ids(&after.trans) {
+        out.push((
+            "transceiver_order",
+            format!("{:?} -> {:?}", ids(&before.trans), ids(&after.trans)),
+        ));
+    }
+    // one entry per field: the first transceiver (in list order) whose value differs
+    let mut seen: Vec<&'static str> = Vec::new();
     for (x, y) in before.trans.iter().zip(after.trans.iter()) {
-        if x.id != y.id && mid.is_none() {
-            mid = Some(format!("transceiver identity changed {} -> {}", x.id, y.id));
+        if x.id != y.id {
             continue;
         }
-        if x.mid != y.mid && mid.is_none() {
-            mid = Some(format!("transceiver#{} mid {:?} -> {:?}", x.id, x.mid, y.mid));
-        }
-        if x.direction != y.direction && dir.is_none() {
-            dir = Some(format!(
-                "transceiver#{} (mid {:?}) direction {:?} -> {:?}",
-                x.id, x.mid, x.direction, y.direction
-            ));
-        }
-        if x.payload_map != y.payload_map && pm.is_none() {
-            pm = Some(format!(
-                "transceiver#{} (mid {:?}) payload map {:?} -> {:?}",
-                x.id, x.mid, x.payload_map, y.payload_map
-            ));
-        }
-        if x.extmap != y.extmap && em.is_none() {
-            em = Some(format!(
-                "transceiver#{} (mid {:?}) extmap {:?} -> {:?}",
-                x.id, x.mid, x.extmap, y.extmap
-            ));
-        }
-    }
-    if let Some(d) = mid {
-        out.push(("mid", d));
-    }
-    if let Some(d) = dir {
-        out.push(("direction", d));
-    }
-    if let Some(d) = pm {
-        out.push(("payload_map", d));
-    }
-    if let Some(d) = em {
-        out.push(("extmap", d));
+        let mut field = |name: &'static str, a: String, b: String| {
+            if a != b && !seen.contains(&name) {
+                seen.push(name);
+                out.push((
+                    name,
+                    format!("transceiver#{} ({} mid {:?}) {} {} -> {}", x.id, x.kind, x.mid, name, a, b),
+                ));
+            }
+        };
+        field("kind", x.kind.clone(), y.kind.clone());
+        field("mid", format!("{:?}", x.mid), format!("{:?}", y.mid));
+        field("direction", format!("{:?}", x.direction), format!("{:?}", y.direction));
+        field("payload_map", format!("{:?}", x.payload_map), format!("{:?}", y.payload_map));
+        field("extmap", format!("{:?}", x.extmap), format!("{:?}", y.extmap));
+        field("sender_identity", format!("{:?}", x.sender_identity), format!("{:?}", y.sender_identity));
+        field("sender", format!("{:?}", x.sender), format!("{:?}", y.sender));
+        field("sender_params", format!("{:?}", x.sender_params), format!("{:?}", y.sender_params));
+        field("sender_sdes_mid", format!("{:?}", x.sender_sdes_mid), format!("{:?}", y.sender_sdes_mid));
+        field("receiver_presence", format!("{:?}", x.has_receiver), format!("{:?}", y.has_receiver));
+        field("receiver_ssrc", format!("{:?}", x.receiver_ssrc), format!("{:?}", y.receiver_ssrc));
+        field("receiver_rtx_ssrc", format!("{:?}", x.receiver_rtx_ssrc), format!("{:?}", y.receiver_rtx_ssrc));
+        field("receiver_rids", format!("{:?}", x.receiver_rids), format!("{:?}", y.receiver_rids));
+        field("udtl_presence", format!("{:?}", x.has_udtl), format!("{:?}", y.has_udtl));
     }
     out
 }
@@ -369,10 +467,257 @@ fn for_each_fingerprint(d: &mut SessionDescription, mut f: impl FnMut(&mut Attri
     n
 }
 
+/// What a staged edit did (for labels and the non-trivial rule of the `reneg` sub-check).
+#[derive(Clone, Copy, Debug, Default)]
+struct StagedInfo {
+    /// index (after the edit) of the section that carries the refusable element
+    poison_idx: Option<usize>,
+    /// Some(true): went through print + parse; Some(false): the parser refused the text
+    via_text: Option<bool>,
+}
+
+fn pt_of(v: &str) -> Option<&str> {
+    v.split_whitespace().next()
+}
+
+fn set_attr(s: &mut MediaSection, key: &str, value: &str) {
+    s.attributes.retain(|a| a.key != key);
+    s.attributes.push(Attribute::new(key, Some(value.to_string())));
+}
+
+fn apply_change(s: &mut MediaSection, change: Change) {
+    match change {
+        Change::CodecSubset if s.formats.len() >= 2 => {
+            let pt = s.formats.remove(0);
+            s.attributes.retain(|a| {
+                !(matches!(a.key.as_str(), "rtpmap" | "fmtp" | "rtcp-fb")
+                    && a.value.as_deref().and_then(pt_of) == Some(pt.as_str()))
+            });
+        }
+        Change::CodecSubset | Change::RemapPt => {
+            let Some(old) = s.formats.first().cloned() else {
+                return;
+            };
+            let new = if old == "121" { "122" } else { "121" };
+            s.formats[0] = new.to_string();
+            for a in s.attributes.iter_mut() {
+                if matches!(a.key.as_str(), "rtpmap" | "fmtp" | "rtcp-fb")
+                    && let Some(v) = a.value.as_mut()
+                    && pt_of(v) == Some(old.as_str())
+                {
+                    *v = format!("{}{}", new, &v[old.len()..]);
+                }
+            }
+            if !s.attributes.iter().any(|a| a.key == "rtpmap"
+                && a.value.as_deref().and_then(pt_of) == Some(new))
+            {
+                // static payload type without rtpmap: describe the renumbered one explicitly
+                let codec = if s.kind == MediaKind::Video { "VP8/90000" } else { "PCMU/8000" };
+                s.attributes
+                    .push(Attribute::new("rtpmap", Some(format!("{} {}", new, codec))));
+            }
+        }
+        Change::AddCodec => {
+            s.formats.push("120".into());
+            s.attributes
+                .push(Attribute::new("rtpmap", Some("120 X-VERIF/16000".into())));
+        }
+        Change::Direction => {
+            s.direction = match s.direction {
+                Direction::SendRecv => Direction::SendOnly,
+                Direction::SendOnly => Direction::RecvOnly,
+                Direction::RecvOnly => Direction::Inactive,
+                Direction::Inactive => Direction::SendRecv,
+            };
+        }
+        Change::Ssrc => {
+            let had: Option<u32> = s
+                .attributes
+                .iter()
+                .find(|a| a.key == "ssrc")
+                .and_then(|a| a.value.as_deref())
+                .and_then(pt_of)
+                .and_then(|x| x.parse().ok());
+            let new = if had == Some(1_592_590_001) { 1_592_590_002u32 } else { 1_592_590_001u32 };
+            s.attributes
+                .retain(|a| a.key != "ssrc" && a.key != "ssrc-group" && a.key != "msid");
+            s.attributes
+                .push(Attribute::new("ssrc", Some(format!("{} cname:verif", new))));
+        }
+        Change::ExtmapIds => {
+            let mut any = false;
+            for a in s.attributes.iter_mut() {
+                if a.key == "extmap"
+                    && let Some(v) = a.value.as_mut()
+                    && let Some(id) = pt_of(v).and_then(|x| x.parse::<u8>().ok())
+                {
+                    let rest = v[pt_of(v).unwrap().len()..].to_string();
+                    *v = format!("{}{}", (id % 14) + 1, rest); // cyclic shift inside 1..=14
+                    any = true;
+                }
+            }
+            if !any {
+                s.attributes.push(Attribute::new(
+                    "extmap",
+                    Some("5 urn:ietf:params:rtp-hdrext:ssrc-audio-level".into()),
+                ));
+            }
+        }
+    }
+}
+
+/// Put `poison` into section `p` (`c` is the changed section); returns the index of the
+/// section carrying it after the edit.
+fn apply_poison(d: &mut SessionDescription, c: usize, p: usize, poison: Poison) -> usize {
+    let push = |d: &mut SessionDescription, k: &str, v: &str| {
+        d.media_sections[p]
+            .attributes
+            .push(Attribute::new(k, Some(v.to_string())));
+    };
+    match poison {
+        Poison::Extmap0 => push(d, "extmap", "0 urn:verif:params:rtp-hdrext:zero"),
+        Poison::Extmap15 => push(d, "extmap", "15 urn:verif:params:rtp-hdrext:fifteen"),
+        Poison::Extmap256 => push(d, "extmap", "256 urn:verif:params:rtp-hdrext:wide"),
+        Poison::ExtmapDuplicate => {
+            push(d, "extmap", "6 urn:verif:params:rtp-hdrext:one");
+            push(d, "extmap", "6 urn:verif:params:rtp-hdrext:two");
+        }
+        Poison::ExtmapNonNumeric => push(d, "extmap", "x urn:verif:params:rtp-hdrext:nan"),
+        Poison::BadRtpmap => {
+            push(d, "rtpmap", "notanumber opus/48000/2");
+            push(d, "rtpmap", "119");
+        }
+        Poison::DuplicateRtpmap => {
+            let pt = d.media_sections[p].formats.first().cloned().unwrap_or("96".into());
+            push(d, "rtpmap", &format!("{} X-TWICE/32000", pt));
+        }
+        Poison::BadFmtp => {
+            push(d, "fmtp", "999 ;;==;");
+            push(d, "fmtp", "");
+        }
+        Poison::UnknownMid => d.media_sections[p].mid = "zz9".into(),
+        Poison::DuplicateMid => {
+            let other = if p != c { Some(c) } else { (0..d.media_sections.len()).find(|i| *i != p) };
+            if let Some(o) = other {
+                d.media_sections[p].mid = d.media_sections[o].mid.clone();
+            } else {
+                d.media_sections[p].mid = "zz9".into();
+            }
+        }
+        Poison::EmptyMid => d.media_sections[p].mid = String::new(),
+        Poison::Fingerprint => {
+            let flip = |a: &mut Attribute| {
+                if let Some(v) = a.value.as_mut()
+                    && let Some(last) = v.pop()
+                {
+                    v.push(if last == 'A' { 'B' } else { 'A' });
+                }
+            };
+            let mut n = 0;
+            for a in d.media_sections[p].attributes.iter_mut() {
+                if a.key == "fingerprint" {
+                    flip(a);
+                    n += 1;
+                }
+            }
+            if n == 0 {
+                for_each_fingerprint(d, flip);
+            }
+        }
+        Poison::BadIce => {
+            set_attr(&mut d.media_sections[p], "ice-ufrag", "");
+            set_attr(&mut d.media_sections[p], "ice-pwd", "x");
+        }
+        Poison::BadProto => d.media_sections[p].protocol = "RTP/VERIF".into(),
+        Poison::PortZero => d.media_sections[p].port = 0,
+        Poison::SwapSections => {
+            let o = if p != c { c } else { (p + 1) % d.media_sections.len() };
+            d.media_sections.swap(p, o);
+            return p.max(o);
+        }
+        Poison::DropSection => {
+            if d.media_sections.len() > 1 {
+                let victim = if p != c { p } else { d.media_sections.len() - 1 };
+                d.media_sections.remove(victim);
+                return victim.min(d.media_sections.len() - 1);
+            }
+        }
+        Poison::ExtraSection => {
+            apply_edit(d, Edit::AddSection { video: d.media_sections[p].kind != MediaKind::Video });
+            return d.media_sections.len() - 1;
+        }
+        Poison::SetupHoldconn => set_attr(&mut d.media_sections[p], "setup", "holdconn"),
+        Poison::NoFormats => {
+            d.media_sections[p].formats.clear();
+            d.media_sections[p]
+                .attributes
+                .retain(|a| !matches!(a.key.as_str(), "rtpmap" | "fmtp" | "rtcp-fb"));
+        }
+    }
+    p
+}
+
+fn apply_staged(
+    d: &mut SessionDescription,
+    change: Change,
+    poison: Poison,
+    same_section: bool,
+    via_text: bool,
+) -> (bool, StagedInfo) {
+    let rtp: Vec<usize> = d
+        .media_sections
+        .iter()
+        .enumerate()
+        .filter(|(_, s)| is_rtp_section(s))
+        .map(|(i, _)| i)
+        .collect();
+    let Some(&c) = rtp.first() else {
+        return (false, StagedInfo::default());
+    };
+    let p = if same_section { c } else { *rtp.last().unwrap() };
+    apply_change(&mut d.media_sections[c], change);
+    let poison_idx = apply_poison(d, c, p, poison);
+    let mut info = StagedInfo { poison_idx: Some(poison_idx), via_text: None };
+    if via_text {
+        match SessionDescription::parse(d.sdp_type, &d.to_sdp_string()) {
+            Ok(parsed) => {
+                *d = parsed;
+                info.via_text = Some(true);
+            }
+            Err(_) => info.via_text = Some(false),
+        }
+    }
+    (true, info)
+}
+
+/// Index of the first media section in which `d` differs from `applied` (None: no difference
+/// in the sections; a different section count counts from the shorter length).
+fn first_differing_section(d: &SessionDescription, applied: &SessionDescription) -> Option<usize> {
+    let n = d.media_sections.len().min(applied.media_sections.len());
+    for i in 0..n {
+        if d.media_sections[i] != applied.media_sections[i] {
+            return Some(i);
+        }
+    }
+    (d.media_sections.len() != applied.media_sections.len()).then_some(n)
+}
+
 /// Apply `edit`; returns false when the edit had nothing to act on (description unchanged).
 fn apply_edit(d: &mut SessionDescription, edit: Edit) -> bool {
+    apply_edit_info(d, edit).0
+}
+
+fn apply_edit_info(d: &mut SessionDescription, edit: Edit) -> (bool, StagedInfo) {
+    if let Edit::Staged { change, poison, same_section, via_text } = edit {
+        return apply_staged(d, change, poison, same_section, via_text);
+    }
+    (apply_edit_plain(d, edit), StagedInfo::default())
+}
+
+fn apply_edit_plain(d: &mut SessionDescription, edit: Edit) -> bool {
     match edit {
         Edit::Keep => true,
+        Edit::Staged { .. } => false,
         Edit::Codecs { alt } => {
             let Some(s) = d.media_sections.iter_mut().find(|s| is_rtp_section(s)) else {
                 return false;
@@ -522,6 +867,7 @@ fn edit_label(e: Edit) -> &'static str {
         Edit::ConflictingFingerprints => "bad-conflicting-fingerprints",
         Edit::UnsupportedHash => "bad-unsupported-hash",
         Edit::BadHexFingerprint => "bad-hex-fingerprint",
+        Edit::Staged { .. } => "staged",
     }
 }
 
@@ -541,34 +887,82 @@ fn config(mode: Mode) -> RtcConfiguration {
 
 type Dc = Arc<rustrtc::transports::sctp::DataChannel>;
 
-fn populate(pc: &PeerConnection, mode: Mode, media: Media, keep: &mut Vec<Dc>) {
-    // data channels only exist in WebRTC mode; the direct modes get audio instead
+/// Things that must stay alive for the duration of a case.
+#[derive(Default)]
+struct Keep {
+    dcs: Vec<Dc>,
+    sources: Vec<rustrtc::media::SampleStreamSource>,
+}
+
+fn add_media(pc: &PeerConnection, kind: MediaKind, tracks: bool, keep: &mut Keep) {
+    if tracks {
+        let (fk, params) = match kind {
+            MediaKind::Video => (
+                rustrtc::media::MediaKind::Video,
+                rustrtc::RtpCodecParameters {
+                    payload_type: 96,
+                    name: "VP8".into(),
+                    clock_rate: 90000,
+                    channels: 0,
+                },
+            ),
+            _ => (
+                rustrtc::media::MediaKind::Audio,
+                rustrtc::RtpCodecParameters {
+                    payload_type: 111,
+                    name: "opus".into(),
+                    clock_rate: 48000,
+                    channels: 2,
+                },
+            ),
+        };
+        let (source, track, _fb) = rustrtc::media::sample_track(fk, 8);
+        // add_track reuses a mid-carrying, sender-less transceiver; on a fresh connection it
+        // always creates a new sendrecv transceiver
+        if pc.add_track(track, params).is_ok() {
+            keep.sources.push(source);
+            return;
+        }
+    }
+    pc.add_transceiver(kind, TransceiverDirection::SendRecv);
+}
+
+fn populate(pc: &PeerConnection, mode: Mode, media: Media, tracks: bool, keep: &mut Keep) {
+    // data channels only exist in WebRTC mode; the direct modes get audio/video instead
     let media = match (mode, media) {
         (Mode::WebRtc, m) => m,
         (_, Media::Dc) => Media::Audio,
         (_, Media::DcAudio) => Media::AudioVideo,
+        (_, Media::DcAudioVideo) => Media::AudioVideoAudio,
         (_, m) => m,
     };
-    let dc = |keep: &mut Vec<Dc>| {
+    let dc = |keep: &mut Keep| {
         if let Ok(d) = pc.create_data_channel("verif", None) {
-            keep.push(d);
+            keep.dcs.push(d);
         }
     };
+    let (a, v) = (MediaKind::Audio, MediaKind::Video);
     match media {
         Media::Dc => dc(keep),
-        Media::Audio => {
-            pc.add_transceiver(MediaKind::Audio, TransceiverDirection::SendRecv);
-        }
-        Media::Video => {
-            pc.add_transceiver(MediaKind::Video, TransceiverDirection::SendRecv);
-        }
+        Media::Audio => add_media(pc, a, tracks, keep),
+        Media::Video => add_media(pc, v, tracks, keep),
         Media::AudioVideo => {
-            pc.add_transceiver(MediaKind::Audio, TransceiverDirection::SendRecv);
-            pc.add_transceiver(MediaKind::Video, TransceiverDirection::SendRecv);
+            add_media(pc, a, tracks, keep);
+            add_media(pc, v, tracks, keep);
         }
         Media::DcAudio => {
             dc(keep);
-            pc.add_transceiver(MediaKind::Audio, TransceiverDirection::SendRecv);
+            add_media(pc, a, tracks, keep);
+        }
+        Media::AudioVideoAudio => {
+            add_media(pc, a, tracks, keep);
+            add_media(pc, v, tracks, keep);
+            add_media(pc, a, tracks, keep);
+        }
+        Media::DcAudioVideo => {
+            dc(keep);
+            add_media(pc, a, tracks, keep);
+            add_media(pc, v, tracks, keep);
         }
     }
 }
@@ -593,6 +987,9 @@ pub struct Opts {
     /// known finding `call-never-returned:create_offer[Srtp]`: let the SDES transport start
     /// finish after every accepted remote description before the next call is made
     pub settle_srtp: bool,
+    /// non-trivial rule of the `reneg` sub-check (an Err on a call whose description differs
+    /// from the applied one at or before the section carrying the refusable element)
+    pub rule_reneg: bool,
 }
 
 struct World {
@@ -601,7 +998,8 @@ struct World {
     a: PeerConnection,
     b: PeerConnection,
     retired: Vec<PeerConnection>,
-    dcs: Vec<Dc>,
+    keep: Keep,
+    tracks: bool,
     /// most recent value returned by A.create_offer / A.create_answer
     a_last_created: Option<SessionDescription>,
     /// most recent offer returned by A.create_offer
@@ -620,20 +1018,21 @@ enum Who {
 
 impl World {
     fn new(case: &Case, marker: Marker, opts: Opts) -> World {
-        let mut dcs = Vec::new();
+        let mut keep = Keep::default();
         marker.set("A", "new");
         let a = PeerConnection::new(config(case.mode));
-        populate(&a, case.mode, case.media_a, &mut dcs);
+        populate(&a, case.mode, case.media_a, case.tracks, &mut keep);
         marker.set("B", "new");
         let b = PeerConnection::new(config(case.mode));
-        populate(&b, case.mode, case.media_b, &mut dcs);
+        populate(&b, case.mode, case.media_b, case.tracks, &mut keep);
         World {
             mode: case.mode,
             media_b: case.media_b,
             a,
             b,
             retired: Vec::new(),
-            dcs,
+            keep,
+            tracks: case.tracks,
             a_last_created: None,
             a_last_offer: None,
             partners_made: 1,
@@ -698,7 +1097,7 @@ impl World {
     fn fresh_partner(&mut self) {
         self.mark(Who::B, "new");
         let nb = PeerConnection::new(config(self.mode));
-        populate(&nb, self.mode, self.media_b, &mut self.dcs);
+        populate(&nb, self.mode, self.media_b, self.tracks, &mut self.keep);
         let old = std::mem::replace(&mut self.b, nb);
         self.mark(Who::B, "close");
         old.close();
@@ -787,7 +1186,8 @@ impl World {
         for p in &self.retired {
             p.close();
         }
-        self.dcs.clear();
+        self.keep.dcs.clear();
+        self.keep.sources.clear();
         self.marker.set("*", "-");
     }
 }
@@ -876,6 +1276,7 @@ async fn run_inner(case: &Case, rec: &CaseRec, w: &mut World, all_fails: &mut Ve
     let mut accepted: u32 = prelude(case, rec, w).await?;
     let mut model = M::of(w.a.signaling_state());
     let mut rejected_after_accepted = false;
+    let mut rejected_midway = false;
     let mut renegotiated = false;
 
     for (i, op) in case.ops.iter().enumerate() {
@@ -885,6 +1286,9 @@ async fn run_inner(case: &Case, rec: &CaseRec, w: &mut World, all_fails: &mut Ve
 
         // ---- perform the call
         let mut edit_used: Option<(Edit, bool)> = None;
+        let mut differs_before_poison = false;
+        let mut staged_call = false;
+        let ice_role_before = format!("{:?}", w.a.ice_transport().role());
         let result: Result<(), RtcError> = match *op {
             Op::AddTransceiver { video } => {
                 let kind = if video { MediaKind::Video } else { MediaKind::Audio };
@@ -929,8 +1333,28 @@ async fn run_inner(case: &Case, rec: &CaseRec, w: &mut World, all_fails: &mut Ve
                         ),
                     ));
                 }
-                let acted = apply_edit(&mut d, edit);
+                let (acted, sinfo) = apply_edit_info(&mut d, edit);
                 edit_used = Some((edit, acted));
+                if let Edit::Staged { change, poison, same_section, .. } = edit {
+                    rec.label(format!("staged:change={:?}", change));
+                    rec.label(format!("staged:poison={:?}", poison));
+                    rec.label(if same_section { "staged:same-section" } else { "staged:later-section" });
+                    match sinfo.via_text {
+                        Some(true) => rec.label("staged:via-text"),
+                        Some(false) => rec.label("staged:via-text-unparsable(struct-used)"),
+                        None => rec.label("staged:struct"),
+                    }
+                }
+                // does the carried description differ from the applied one in a section at or
+                // before the one carrying the refusable element?
+                let applied = if local { w.a.local_description() } else { w.a.remote_description() };
+                differs_before_poison = match (&applied, sinfo.poison_idx) {
+                    (Some(ap), Some(pi)) => {
+                        first_differing_section(&d, ap).is_some_and(|fd| fd <= pi)
+                    }
+                    _ => false,
+                };
+                staged_call = matches!(edit, Edit::Staged { .. });
                 if local {
                     let r = w.set_local(Who::A, d.clone());
                     if r.is_ok()
@@ -955,6 +1379,26 @@ async fn run_inner(case: &Case, rec: &CaseRec, w: &mut World, all_fails: &mut Ve
             (Err(_), Some(_)) => "err-content",
         };
         rec.label(format!("t:{}@{}={}", call, at, outcome));
+        if staged_call {
+            rec.label(format!("staged-call:{}@{}={}", call, at, outcome));
+            if result.is_err() && differs_before_poison {
+                // the unchanged tree refused a description that differs from the applied one in
+                // an earlier (or the same) section than the refusable element
+                rejected_midway = true;
+                rec.label(format!("rejected-midway:{}@{}", call, at));
+                if allowed.is_some() {
+                    // the machine allows the call: the refusal is about the description content
+                    rec.label("rejected-midway-content");
+                    if let Some((Edit::Staged { poison, .. }, _)) = edit_used {
+                        rec.label(format!("rejected-midway-content:poison={:?}", poison));
+                    }
+                }
+            }
+        }
+        if result.is_err() && format!("{:?}", w.a.ice_transport().role()) != ice_role_before {
+            // not part of the statement (not judged): the ICE role moved although the call erred
+            rec.label(format!("soft:ice-role-changed-on-err:{}@{}", call, at));
+        }
         if let Some((e, acted)) = edit_used {
             if e != Edit::Keep {
                 rec.label(format!("edit:{}{}", edit_label(e), if acted { "" } else { "(no-op)" }));
@@ -1038,7 +1482,10 @@ async fn run_inner(case: &Case, rec: &CaseRec, w: &mut World, all_fails: &mut Ve
         rec.label(format!("reached:{}", model.name()));
     }
 
-    rec.set_nontrivial(rejected_after_accepted);
+    rec.set_nontrivial(if w.opts.rule_reneg { rejected_midway } else { rejected_after_accepted });
+    if rejected_midway {
+        rec.label("rejected-midway");
+    }
     if rejected_after_accepted {
         rec.label("rejected-after-accepted");
     }
@@ -1117,6 +1564,8 @@ fn media_strategy() -> impl Strategy<Value = Media> {
         1 => Just(Media::Video),
         3 => Just(Media::AudioVideo),
         2 => Just(Media::DcAudio),
+        1 => Just(Media::AudioVideoAudio),
+        1 => Just(Media::DcAudioVideo),
     ]
 }
 
@@ -1141,6 +1590,7 @@ fn edit_strategy() -> impl Strategy<Value = Edit> {
         1 => Just(Edit::ConflictingFingerprints),
         1 => Just(Edit::UnsupportedHash),
         1 => Just(Edit::BadHexFingerprint),
+        3 => staged_strategy(),
     ]
 }
 
@@ -1228,14 +1678,150 @@ pub fn case_strategy() -> impl Strategy<Value = Case> {
         media_strategy(),
         prop::bool::weighted(0.7),
         start_strategy(),
+        prop::bool::weighted(0.25),
         prop::collection::vec(raw_step(), 1..=12),
     )
-        .prop_map(|(mode, media_a, media_b0, same_media, start, raw)| Case {
+        .prop_map(|(mode, media_a, media_b0, same_media, start, tracks, raw)| Case {
             mode,
             media_a,
             media_b: if same_media { media_a } else { media_b0 },
             start,
+            tracks,
             ops: build_ops(raw),
+        })
+}
+
+// ---- `reneg`: renegotiation programs whose descriptions are rejected (or not) mid-way
+
+fn change_strategy() -> impl Strategy<Value = Change> {
+    prop_oneof![
+        Just(Change::CodecSubset),
+        Just(Change::RemapPt),
+        Just(Change::AddCodec),
+        Just(Change::Direction),
+        Just(Change::Ssrc),
+        Just(Change::ExtmapIds),
+    ]
+}
+
+fn poison_strategy() -> impl Strategy<Value = Poison> {
+    prop_oneof![
+        3 => Just(Poison::Extmap0),
+        2 => Just(Poison::Extmap15),
+        2 => Just(Poison::Extmap256),
+        2 => Just(Poison::ExtmapDuplicate),
+        2 => Just(Poison::ExtmapNonNumeric),
+        2 => Just(Poison::BadRtpmap),
+        2 => Just(Poison::DuplicateRtpmap),
+        2 => Just(Poison::BadFmtp),
+        2 => Just(Poison::UnknownMid),
+        2 => Just(Poison::DuplicateMid),
+        1 => Just(Poison::EmptyMid),
+        3 => Just(Poison::Fingerprint),
+        2 => Just(Poison::BadIce),
+        2 => Just(Poison::BadProto),
+        1 => Just(Poison::PortZero),
+        2 => Just(Poison::SwapSections),
+        2 => Just(Poison::DropSection),
+        2 => Just(Poison::ExtraSection),
+        2 => Just(Poison::SetupHoldconn),
+        1 => Just(Poison::NoFormats),
+    ]
+}
+
+fn staged_strategy() -> impl Strategy<Value = Edit> {
+    (change_strategy(), poison_strategy(), prop::bool::weighted(0.4), prop::bool::weighted(0.4))
+        .prop_map(|(change, poison, same_section, via_text)| Edit::Staged {
+            change,
+            poison,
+            same_section,
+            via_text,
+        })
+}
+
+/// One renegotiation round, by construction from the role A plays in it.
+#[derive(Clone, Debug)]
+struct RawRound {
+    a_offers: bool,
+    staged_remote: Edit,
+    staged_local: Option<Edit>,
+    pranswer_first: bool,
+    complete: bool,
+    final_answer: Edit,
+}
+
+fn raw_round() -> impl Strategy<Value = RawRound> {
+    (
+        any::<bool>(),
+        staged_strategy(),
+        prop::option::weighted(0.25, staged_strategy()),
+        prop::bool::weighted(0.3),
+        prop::bool::weighted(0.7),
+        prop_oneof![3 => Just(Edit::Keep), 2 => staged_strategy()],
+    )
+        .prop_map(|(a_offers, staged_remote, staged_local, pranswer_first, complete, final_answer)| {
+            RawRound { a_offers, staged_remote, staged_local, pranswer_first, complete, final_answer }
+        })
+}
+
+fn round_ops(r: &RawRound, out: &mut Vec<Op>) {
+    let (own, par) = (Source::Own, Source::Partner);
+    if r.a_offers {
+        out.push(Op::CreateOffer);
+        out.push(Op::SetLocal { kind: Kind::Offer, src: own, edit: r.staged_local.unwrap_or(Edit::Keep) });
+        if r.pranswer_first {
+            out.push(Op::SetRemote { kind: Kind::Pranswer, src: par, edit: r.staged_remote });
+            out.push(Op::SetRemote { kind: Kind::Answer, src: par, edit: r.final_answer });
+        } else {
+            out.push(Op::SetRemote { kind: Kind::Answer, src: par, edit: r.staged_remote });
+            if !r.complete {
+                // retry with the clean answer (what an application does after a refusal)
+                out.push(Op::SetRemote { kind: Kind::Answer, src: par, edit: Edit::Keep });
+            }
+        }
+    } else {
+        out.push(Op::SetRemote { kind: Kind::Offer, src: par, edit: r.staged_remote });
+        if r.complete {
+            out.push(Op::CreateAnswer);
+            if r.pranswer_first {
+                out.push(Op::SetLocal { kind: Kind::Pranswer, src: own, edit: Edit::Keep });
+            }
+            out.push(Op::SetLocal { kind: Kind::Answer, src: own, edit: r.staged_local.unwrap_or(Edit::Keep) });
+        } else {
+            out.push(Op::SetRemote { kind: Kind::Offer, src: par, edit: Edit::Keep });
+        }
+    }
+}
+
+pub fn reneg_strategy() -> impl Strategy<Value = Case> {
+    (
+        mode_strategy(),
+        prop_oneof![
+            3 => Just(Media::AudioVideo),
+            3 => Just(Media::AudioVideoAudio),
+            3 => Just(Media::DcAudioVideo),
+        ],
+        any::<bool>(),
+        any::<bool>(),
+        any::<bool>(),
+        prop::collection::vec(raw_round(), 1..=3),
+        prop::collection::vec(raw_step(), 0..=2),
+    )
+        .prop_map(|(mode, media, tracks, a_offers, wait_connected, rounds, tail)| {
+            let mut ops = Vec::new();
+            for r in &rounds {
+                round_ops(r, &mut ops);
+            }
+            ops.extend(tail.into_iter().map(|r| r.op));
+            ops.truncate(12);
+            Case {
+                mode,
+                media_a: media,
+                media_b: media,
+                start: Start::Negotiated { a_offers, wait_connected },
+                tracks,
+                ops,
+            }
         })
 }
 
@@ -1273,13 +1859,13 @@ fn verdict(ctx: &Ctx, o: &Outcome, count: bool) -> Check {
 
 pub fn run(ctx: &mut Ctx) {
     ctx.level = "exploration";
-    ctx.rule = "random programs of 1-12 ops over {create_offer, create_answer, set_local(k), set_remote(k), close} (+ an auxiliary add_transceiver) with k in {offer, answer, pranswer, rollback}; 55% of steps are steered to a call the reference machine allows in the predicted state so deep states are reached; each carried description is the connection's own last create_* value or a live partner connection's matching offer/answer, kept / changed (codec list, direction, added section, fingerprint, extmap) / malformed (no, conflicting, unsupported-hash, non-hex fingerprint) and re-typed to k; start fresh or after one complete offer/answer (optionally waiting until ICE+DTLS connected); WebRtc / Srtp / Rtp transport modes; partner media equal to or different from the connection's. Non-trivial = the program contains at least one call that returned Err after at least one call that returned Ok on the same connection (the negotiation prelude counts); distinct by digest of the generated program.".into();
+    ctx.rule = "random programs of 1-12 ops over {create_offer, create_answer, set_local(k), set_remote(k), close} (+ an auxiliary add_transceiver) with k in {offer, answer, pranswer, rollback}; 55% of steps are steered to a call the reference machine allows in the predicted state so deep states are reached; each carried description is the connection's own last create_* value or a live partner connection's matching offer/answer, kept / changed (codec list, direction, added section, fingerprint, extmap) / malformed (no, conflicting, unsupported-hash, non-hex fingerprint) and re-typed to k; start fresh or after one complete offer/answer (optionally waiting until ICE+DTLS connected); WebRtc / Srtp / Rtp transport modes; partner media equal to or different from the connection's. Non-trivial (seq) = the program contains at least one call that returned Err after at least one call that returned Ok on the same connection (the negotiation prelude counts); distinct by digest of the generated program. Sub-check reneg: always-negotiated connections (all modes, 2-3 media sections, with/without senders, optionally connected), 1-3 renegotiation rounds built from A's role (re-offer from the partner / own re-offer answered by pranswer+answer), in which the carried description is 'staged': the first RTP section changes media parameters (codec subset, renumbered PT, added codec, direction, ssrc, extmap ids) and the last RTP section - or the same section after the changed lines - carries an element the stack may refuse (extmap id 0/15/256/duplicate/non-numeric, malformed or duplicate rtpmap, malformed fmtp, unknown/duplicate/empty mid, changed fingerprint, bad ICE credentials, unsupported proto, port 0, swapped/dropped/extra m-line, setup:holdconn, no formats), as struct or through print+parse; seq also draws staged edits (weight 3/28). Non-trivial (reneg) = an Err on a set_* call whose description differs from the applied one at or before the section carrying that element.".into();
     ctx.assumptions = vec![
         "reference machine as the API documents it: pranswer is accepted only where an answer would be and leaves the state unchanged; rollback is refused in every state; after close every call errs and the state stays Closed".into(),
         "calls the machine allows may fail for description-content reasons; the model then stays put (only atomicity is checked)".into(),
         "a=candidate / a=end-of-candidates lines of the stored local description are ignored when comparing snapshots: the ICE gathering task appends them in the background, independent of the call".into(),
         "both connections bind 127.0.0.1; the 'connected' start waits up to 10 s for ICE+DTLS and is counted inconclusive_timing when missed".into(),
-        "'negotiated parameters of a transceiver' are read through mid(), direction(), get_payload_map() and get_extmap()".into(),
+        "'negotiated parameters of a transceiver' = everything the public API exposes per transceiver: kind, mid, direction, get_payload_map(), get_extmap(), sender_ssrc/sender_rtx_ssrc/sender_stream_id/sender_track_id, RtpSender ssrc/track/stream/cname, RtpSender::params() (payload type, codec, clock, channels), RtpSender::sdes_mid(), receiver presence, RtpReceiver ssrc/rtx_ssrc/simulcast rids, UDPTL presence, plus number and order of transceivers (a data channel is its Application transceiver). Not compared because background tasks legitimately change them or the statement does not name them: SCTP/DTLS transport presence, ICE state; an ICE role that moves on Err is only labelled (soft:ice-role-changed-on-err)".into(),
         "a call that has not returned after the watchdog (30 s quick / 60 s thorough; normal cases take < 50 ms) is reported as call-never-returned".into(),
     ];
 
@@ -1292,128 +1878,142 @@ pub fn run(ctx: &mut Ctx) {
             .expect("tokio runtime"),
     );
     let ctx: &Ctx = &*ctx;
-    let opts = Opts { settle_srtp: ctx.is_known(HANG_SIG) };
+    let opts = Opts { settle_srtp: ctx.is_known(HANG_SIG), rule_reneg: false };
     let watchdog = Duration::from_secs(ctx.scale(30, 60));
     let trace = std::env::var("VERIF_C09_TRACE").is_ok();
 
-    // replay / regression path: one case at a time (same watchdog)
-    let single = |c: &Case| -> bool {
-        let o = exec(&rt, c, opts, watchdog);
-        let v = serde_json::to_value(c).unwrap();
-        let res = verdict(ctx, &o, true);
-        match ctx.record("seq", &v, &o.rec, &res) {
-            Ok(()) => true,
-            Err(f) => {
-                ctx.violation("seq", &v, &f);
-                false
+    let run_sub = |sub: &str, opts: Opts, quick: usize, thorough: usize, strat: BoxedStrategy<Case>| {
+        // replay / regression path: one case at a time (same watchdog)
+        let single = |c: &Case| -> bool {
+            let o = exec(&rt, c, opts, watchdog);
+            let v = serde_json::to_value(c).unwrap();
+            let res = verdict(ctx, &o, true);
+            match ctx.record(sub, &v, &o.rec, &res) {
+                Ok(()) => true,
+                Err(f) => {
+                    ctx.violation(sub, &v, &f);
+                    false
+                }
+            }
+        };
+        if ctx.is_replay() {
+            if let Some(c) = ctx.replay_case::<Case>(sub) {
+                if single(&c) {
+                    println!("replay: property={} sub={} PASS", ctx.prop, sub);
+                }
+            }
+            return;
+        }
+        for c in ctx.regression_cases::<Case>(sub) {
+            single(&c);
+        }
+
+        let n = ctx.scale(quick, thorough);
+        let n = std::env::var(format!("VERIF_C09_N_{}", sub.to_uppercase()))
+            .ok()
+            .and_then(|v| v.parse().ok())
+            .unwrap_or(n);
+        // Value trees are heavy (hundreds of KiB each): generate, run and judge in chunks so that
+        // the thorough tier's programs do not have to be resident at once. Each chunk has its own
+        // seeded stream ("<sub>#<chunk>").
+        const CHUNK: usize = 5_000;
+        let total = n;
+        let mut reported: Vec<String> = Vec::new();
+        let mut done = 0usize;
+        let mut chunk_no = 0usize;
+        while done < total {
+            let n = CHUNK.min(total - done);
+            let mut trees = ctx.draw(&format!("{sub}#{chunk_no}"), n, &strat);
+            let cases: Vec<Case> = trees.iter().map(|t| t.current()).collect();
+            let results: Vec<parking_lot::Mutex<Option<Outcome>>> =
+                (0..n).map(|_| parking_lot::Mutex::new(None)).collect();
+            let next = AtomicUsize::new(0);
+            std::thread::scope(|sc| {
+                for _ in 0..threads {
+                    sc.spawn(|| {
+                        loop {
+                            let k = next.fetch_add(1, Ordering::Relaxed);
+                            if k >= n {
+                                break;
+                            }
+                            if trace {
+                                eprintln!("[c09] start {} {} {:?}", sub, k, cases[k]);
+                            }
+                            let t0 = std::time::Instant::now();
+                            let o = exec(&rt, &cases[k], opts, watchdog);
+                            if trace {
+                                eprintln!(
+                                    "[c09] done {} {} in {:?}: {:?}",
+                                    sub,
+                                    k,
+                                    t0.elapsed(),
+                                    o.fails
+                                        .iter()
+                                        .map(|f| {
+                                            let cause = f
+                                                .msg
+                                                .split("(result ")
+                                                .nth(1)
+                                                .and_then(|x| x.split(';').next())
+                                                .unwrap_or("");
+                                            format!("{} <= {}", f.signature, cause)
+                                        })
+                                        .collect::<Vec<_>>()
+                                );
+                            }
+                            *results[k].lock() = Some(o);
+                        }
+                    });
+                }
+            });
+
+            // one replay file per distinct unknown signature (at most 6), each shrunk
+            for k in 0..n {
+                let o = results[k].lock().take().expect("case result");
+                let v = serde_json::to_value(&cases[k]).unwrap();
+                let res = verdict(ctx, &o, true);
+                if let Err(f) = ctx.record(sub, &v, &o.rec, &res) {
+                    if reported.contains(&f.signature) || reported.len() >= 6 {
+                        continue;
+                    }
+                    reported.push(f.signature.clone());
+                    let sig = f.signature.clone();
+                    let hang = sig.starts_with("call-never-returned");
+                    let min = if hang {
+                        cases[k].clone() // timing dependent; costs a watchdog period per try
+                    } else {
+                        ctx.shrink_tree(&mut trees[k], 200, |c| {
+                            exec(&rt, c, opts, watchdog).fails.iter().any(|f2| f2.signature == sig)
+                        })
+                    };
+                    let fmin = if hang {
+                        f
+                    } else {
+                        exec(&rt, &min, opts, watchdog)
+                            .fails
+                            .into_iter()
+                            .find(|f2| f2.signature == sig)
+                            .unwrap_or(f)
+                    };
+                    ctx.violation(sub, &serde_json::to_value(&min).unwrap(), &fmin);
+                }
+            }
+            done += n;
+            chunk_no += 1;
+            if ctx.has_violation() && reported.len() >= 6 {
+                break;
             }
         }
     };
-    if ctx.is_replay() {
-        if let Some(c) = ctx.replay_case::<Case>("seq") {
-            if single(&c) {
-                println!("replay: property={} sub=seq PASS", ctx.prop);
-            }
-        }
-        return;
-    }
-    for c in ctx.regression_cases::<Case>("seq") {
-        single(&c);
-    }
 
-    let n = ctx.scale(30_000usize, 400_000usize);
-    let n = std::env::var("VERIF_C09_N").ok().and_then(|v| v.parse().ok()).unwrap_or(n);
-    let strat = case_strategy();
-    // Value trees are heavy (hundreds of KiB each): generate, run and judge in chunks so that the
-    // thorough tier's 400 000 programs do not have to be resident at once. Each chunk has its own
-    // seeded stream ("seq#<chunk>").
-    const CHUNK: usize = 5_000;
-    let total = n;
-    let mut reported: Vec<String> = Vec::new();
-    let mut done = 0usize;
-    let mut chunk_no = 0usize;
-    while done < total {
-    let n = CHUNK.min(total - done);
-    let mut trees = ctx.draw(&format!("seq#{chunk_no}"), n, &strat);
-    let cases: Vec<Case> = trees.iter().map(|t| t.current()).collect();
-    let results: Vec<parking_lot::Mutex<Option<Outcome>>> =
-        (0..n).map(|_| parking_lot::Mutex::new(None)).collect();
-    let next = AtomicUsize::new(0);
-    std::thread::scope(|sc| {
-        for _ in 0..threads {
-            sc.spawn(|| {
-                loop {
-                    let k = next.fetch_add(1, Ordering::Relaxed);
-                    if k >= n {
-                        break;
-                    }
-                    if trace {
-                        eprintln!("[c09] start {} {:?}", k, cases[k]);
-                    }
-                    let t0 = std::time::Instant::now();
-                    let o = exec(&rt, &cases[k], opts, watchdog);
-                    if trace {
-                        eprintln!(
-                            "[c09] done {} in {:?}: {:?}",
-                            k,
-                            t0.elapsed(),
-                            o.fails
-                                .iter()
-                                .map(|f| {
-                                    let cause = f
-                                        .msg
-                                        .split("(result ")
-                                        .nth(1)
-                                        .and_then(|x| x.split(';').next())
-                                        .unwrap_or("");
-                                    format!("{} <= {}", f.signature, cause)
-                                })
-                                .collect::<Vec<_>>()
-                        );
-                    }
-                    *results[k].lock() = Some(o);
-                }
-            });
-        }
-    });
-
-    // one replay file per distinct unknown signature (at most 6), each shrunk
-    for k in 0..n {
-        let o = results[k].lock().take().expect("case result");
-        let v = serde_json::to_value(&cases[k]).unwrap();
-        let res = verdict(ctx, &o, true);
-        if let Err(f) = ctx.record("seq", &v, &o.rec, &res) {
-            if reported.contains(&f.signature) || reported.len() >= 6 {
-                continue;
-            }
-            reported.push(f.signature.clone());
-            let sig = f.signature.clone();
-            let hang = sig.starts_with("call-never-returned");
-            let min = if hang {
-                cases[k].clone() // a hang is timing dependent and costs a watchdog period per try
-            } else {
-                ctx.shrink_tree(&mut trees[k], 200, |c| {
-                    exec(&rt, c, opts, watchdog).fails.iter().any(|f2| f2.signature == sig)
-                })
-            };
-            let fmin = if hang {
-                f
-            } else {
-                exec(&rt, &min, opts, watchdog)
-                    .fails
-                    .into_iter()
-                    .find(|f2| f2.signature == sig)
-                    .unwrap_or(f)
-            };
-            ctx.violation("seq", &serde_json::to_value(&min).unwrap(), &fmin);
-        }
-    }
-    done += n;
-    chunk_no += 1;
-    if ctx.has_violation() && reported.len() >= 6 {
-        break;
-    }
-    }
+    run_sub("seq", opts, 24_000, 320_000, case_strategy().boxed());
+    run_sub(
+        "reneg",
+        Opts { rule_reneg: true, ..opts },
+        6_000,
+        80_000,
+        reneg_strategy().boxed(),
+    );
     ctx.set_exhaustive(false);
     ctx.set_extra("worker_threads", json!(threads));
     ctx.set_extra("srtp_settle_steering", json!(opts.settle_srtp));
